@@ -230,6 +230,14 @@ def gen_random(rng):
             for k2 in ("page_by", "subline_by", "group_by"):
                 if isinstance(b.get(k2), list):
                     b[k2] = [ren.get(x, x) for x in b[k2]]
+        keys_ = [x for k2 in ("page_by", "subline_by", "group_by") for x in (b.get(k2) or [])
+                 if isinstance(b.get(k2), list)]
+        if keys_ and rng.random() < 0.12:
+            # a grouping column of Float dtype with NaN, the infinities and -0.0 among its values
+            kc = rng.choice(keys_)
+            for c in spec["df"]["cols"]:
+                if c["name"] == kc and c["dtype"] == "str":
+                    G.float_keys(rng, c)
         if rng.random() < 0.3:
             sprinkle_unicode(rng, spec)
         if rng.random() < 0.2:
